@@ -395,8 +395,31 @@ pub struct ServerRun {
     pub server_finished: bool,
 }
 
+/// A real zlink client on the other end of the simulated wire (see `real_client.rs`).
+pub struct RealClient {
+    pub spec: ClientSpec,
+    pub prog: Vec<crate::real_client::Exch>,
+    pub c2s: usize,
+    pub s2c: usize,
+    pub result: Rc<RefCell<crate::real_client::RealResult>>,
+}
+
+/// Pipes and pending connection for a real client (no scripted bytes: the client writes them).
+pub fn install_real_client(world: &World, spec: &ClientSpec) -> ConnInfo {
+    let mut w = world.borrow_mut();
+    let c2s = w.new_pipe();
+    let s2c = w.new_pipe();
+    w.listener.pending.push(PendingConn { c2s, s2c, after_quiet: spec.after_quiet });
+    ConnInfo { c2s, s2c, call_end_offsets: Vec::new(), first_faulty_call: None, write_fault: None }
+}
+
 /// Run the real server until quiescence.
 pub fn run_server(world: &World, suspends: bool) -> ServerRun {
+    run_server_with(world, suspends, Vec::new())
+}
+
+/// Run the real server and the given real clients (one task each) until quiescence.
+pub fn run_server_with(world: &World, suspends: bool, reals: Vec<RealClient>) -> ServerRun {
     let log: Rc<RefCell<Vec<Handled>>> = Rc::new(RefCell::new(Vec::new()));
     let finished = Rc::new(RefCell::new(false));
     {
@@ -410,6 +433,11 @@ pub fn run_server(world: &World, suspends: bool) -> ServerRun {
             world2.borrow_mut().note(|| format!("server.run returned {r:?}"));
             *fin.borrow_mut() = true;
         });
+        for rc in reals {
+            // the client's read end is the server-to-client pipe and vice versa
+            let conn = zlink_core::Connection::new(crate::world::W::socket(world, rc.s2c, rc.c2s));
+            ex.spawn(crate::real_client::run_real_client(world.clone(), conn, rc.spec, rc.prog, rc.result));
+        }
         ex.run(world);
     }
     let handled = log.borrow().clone();
